@@ -26,7 +26,9 @@ def classify_crash(cr):
     if kind == 'hang':
         return (comp, 'hang')
     where = ''
-    for fn, tag in (('updateSubOptimalPaths', 'updateSubOptimalPaths'), ('deltaPrune', 'deltaPrune'), ('sawtoothInterpolation', 'sawtoothInterpolation'), ('LPInterpolation', 'LPInterpolation'),
+    for fn, tag in (('BlindStrategies::operator()<GModel>', 'BlindStrategies_elementwise_model'),
+                    ('FastInformedBound::operator()<AIToolbox::POMDP::SparseModel', 'FastInformedBound_sparse_rewards'),
+                    ('updateSubOptimalPaths', 'updateSubOptimalPaths'), ('deltaPrune', 'deltaPrune'), ('sawtoothInterpolation', 'sawtoothInterpolation'), ('LPInterpolation', 'LPInterpolation'),
                     ('cleanUp', 'cleanUp'), ('makeNewPomdp', 'makeNewPomdp'), ('selectReachableBeliefs', 'selectReachableBeliefs'),
                     ('backupNode', 'backupNode'), ('samplePoints', 'samplePoints'), ('expandLeaf', 'expandLeaf'),
                     ('SARSOP::operator()', 'main_loop'), ('GapMin::operator()', 'main_loop')):
@@ -38,6 +40,10 @@ def classify_crash(cr):
         what = 'memory_error'            # one defect shows up under several sanitizer names (heap-buffer-overflow, use-after-free, null reference)
     elif 'Assertion' in err:
         what = 'assertion'
+    if where == 'BlindStrategies_elementwise_model':
+        comp = 'BlindStrategies'
+    if where == 'FastInformedBound_sparse_rewards':       # reached through FIB itself, SARSOP, GapMin and the kernels' set-up alike
+        comp = 'FastInformedBound'
     return (comp, what + ('_in_' + where if where else ''))
 
 
@@ -84,19 +90,34 @@ SPEC = {
         'AITB.POMDP3.lpInterp_isInterp', 'AITB.POMDP3.gapmin_ub_sound',
         'AITB.POMDP3.pbvi_warm_sound', 'AITB.POMDP3.pbvi_warm_value',
         'AITB.POMDP3.iterHV_eq', 'AITB.POMDP3.upperRefV_eq', 'AITB.POMDP3.lowerRefV_eq',
+        # round 4: the 1e-6 cut-offs of the upper side (makeNewPomdp weights / empty rows, bestPromisingAction skip) with the slack they cost
+        'AITB.POMDP3.shift_sublin', 'AITB.POMDP3.qval_shift', 'AITB.POMDP3.Hop_shift', 'AITB.POMDP3.shift_subSol_room', 'AITB.POMDP3.shift_subSol',
+        'AITB.POMDP3.fibStepW_trunc_sound', 'AITB.POMDP3.promisingVal_trunc_ge', 'AITB.POMDP3.SoundT_step', 'AITB.POMDP3.anytimeT_sound',
+        'AITB.POMDP3.truncW_residual', 'AITB.POMDP3.libCut_residual', 'AITB.POMDP3.massCut_residual', 'AITB.POMDP3.truncSlack_pays',
+        'AITB.POMDP3.mass_bstep_le', 'AITB.POMDP3.pointBackup_cut_sound', 'AITB.POMDP3.cut_table_residuals', 'AITB.POMDP3.libCut_diff', 'AITB.POMDP3.pointBackup_src_cut_sound',
+        'AITB.POMDP3.checkEqualSmall_zero_le', 'AITB.POMDP3.promisingActSaw_is_poolAddT', 'AITB.POMDP3.promisingActSaw_upper_trunc', 'AITB.POMDP3.backup_chain_cut_sound',
         'AITB.POMDP3.mW_valid', 'AITB.POMDP3.mW_ref_superSol', 'AITB.POMDP3.ΓW_sound',
     ],
     'gen_obligations': ['AITB.POMDP3.src_blind_start_is_min', 'AITB.POMDP3.src_fib_start_is_max', 'AITB.POMDP3.src_fib_inner_is_max', 'AITB.POMDP3.src_cons_no_skip', 'AITB.POMDP3.src_saw_is_repaired'],
     'harness': 'harness/c03.cpp',
+    # the solvers are declared for every `IsModel`; a user-defined model without the Eigen interface is inside the quantifier
+    'compile_probes': [{'src': 'harness/c03_probe_elementwise_fib.cpp', 'define': 'AITB_C03_ELEMENTWISE_FIB',
+                        'component': 'FastInformedBound', 'kind': 'elementwise_model_does_not_compile'},
+                       {'src': 'harness/c03_probe_elementwise_anytime.cpp', 'define': 'AITB_C03_ELEMENTWISE_ANYTIME',
+                        'component': 'SARSOP_GapMin', 'kind': 'elementwise_model_does_not_compile'}],
     'level': 'proof',
     'timeout': {'quick': 900, 'thorough': 1800},
     'case_timeout': 240,
+    'driver_jobs': 8,       # every protocol line is judged independently (the thorough tier's trace validation is the long pole)
     'driver_timeout': {'quick': 1800, 'thorough': 5400},   # trace validation of ~5000 snapshots in exact rationals
 
     'classify_crash': classify_crash,
-    'rule': 'one case = one (POMDP, solver) pair; 12 fixed POMDPs (Tiger, 1-state clamp witnesses, corner/face initial beliefs, all-negative rewards, two S=5 GapMin regression instances) then '
-            '38 (quick) / 298 (thorough) seeded dyadic POMDPs S<=4(5) A<=3 O<=3, discounts 1/2..15/16 (and 0.9/0.95/0.3), initial belief corner/face/interior; '
-            'SARSOP/GapMin run in a forked child under a 40 s / 120 s wall budget (completed iterations kept); solvers: BlindStrategies (both starts), FIB+QMDP, PBVI, PERSEUS, SARSOP (<=30/80 observed iterations), GapMin (<=12/30), look-ahead kernels. '
+    'rule': 'one case = one (POMDP, solver) pair; 22 fixed POMDPs (Tiger, 1-state clamp witnesses, corner/face initial beliefs, all-negative rewards, two S=5 GapMin regression instances, '
+            '4 instances with (action, observation) pairs impossible for every successor and rewards of one sign, 2 with transition probabilities 2^-21 below the library tolerance, the two cut-off witnesses, 2 sparse models with unstored zero rewards) then '
+            '28 (quick) / 288 (thorough) seeded dyadic POMDPs S<=4(5) A<=3 O<=3, discounts 1/2..15/16 (and 0.9/0.95/0.3), initial belief corner/face/interior; a quarter gets impossible (a,o) pairs '
+            '(half of those rewards of one sign); model kind dense 1/2, sparse Eigen 1/4, element-wise user model 1/4 (where the instantiation compiles: compile probes); '
+            'SARSOP/GapMin run in a forked child under a 40 s / 120 s wall budget (completed iterations kept); solvers: BlindStrategies (both starts), FIB+QMDP, PBVI, PERSEUS, SARSOP (<=30/80 observed iterations), GapMin (<=12/30), '
+            'look-ahead kernels + helper contracts (updateBelief*, beliefExpectedReward, findBestAtPoint, extractDominated, checkEqualProbability). '
             'non-trivial = every line (each carries a full POMDP); distinct by protocol line',
     'modelled': ['include/AIToolbox/POMDP/Algorithms/BlindStrategies.hpp: operator() (both starts, clamp, tolerance loop)',
                  'include/AIToolbox/POMDP/Algorithms/FastInformedBound.hpp: operator() plain and SOSA-parameterised (GapMin belief-augmented POMDP)',
@@ -104,10 +125,11 @@ SPEC = {
                  'include/AIToolbox/POMDP/Utils.hpp: makeSOSA, crossSumBestAtBelief (as backupVec of the linked vectors), bestConservativeAction (as found and repaired), bestPromisingAction (per-action value; sawtooth reading through the C12 model)',
                  'include/AIToolbox/POMDP/Algorithms/PBVI.hpp, PERSEUS.hpp: outer step = point backups of the previous timestep (links), any pruning',
                  'include/AIToolbox/POMDP/Algorithms/SARSOP.hpp, GapMin.hpp: event system of Props/C03Anytime.lean (NOT modelled: sampling heuristics, deltaPrune bookkeeping, selectReachableBeliefs, cleanUp index handling)',
-                 'src/Utils/Polytope.cpp: LPInterpolation / sawtoothInterpolation through the C12 models (Props/C03Bridge.lean: their values are IsInterp values)'],
+                 'src/Utils/Polytope.cpp: LPInterpolation / sawtoothInterpolation through the C12 models (Props/C03Bridge.lean: their values are IsInterp values)',
+                 'GapMin::makeNewPomdp weight / mass cut-offs, bestPromisingAction probability cut-off, Projecter possible-observation cut-off: as residual-carrying events (Props/C03Trunc.lean), slack proved'],
     'assumptions': ['V* = inf_k upperRef = sup_k lowerRef (the one step of real analysis; everything else is in exact rationals)',
                     'IEEE rounding outside the theorems: clauses on double outputs get the slack 1e-9*max(1,|R|max/(1-discount)); rows of T/O summing to 1 within 1e-12 are accepted as stochastic',
                     'a call that stops on a tolerance or horizon is sound up to the slack it reports itself (DESIGN §8 C03); zero slack where the monotone-from-a-safe-start theorems apply',
                     'soundness "at every belief" of implementation outputs is evaluated at the initial belief, all corners, the centre and the supplied beliefs; the for-all is the theorems\''],
-    'trusted_base': ['tools/extract_c03.py (start reductions, clamp literal, zero-probability skip of bestConservativeAction, call sites in SARSOP/GapMin)'],
+    'trusted_base': ['tools/extract_c03.py (start reductions, clamp literal, zero-probability skip of bestConservativeAction, call sites in SARSOP/GapMin, makeNewPomdp cut-offs and belief reward rows, Projecter reward share / impossible-observation branch)'],
 }
